@@ -380,7 +380,53 @@ fn script_checks(g: Gen, spec: &CmdSpec, script: &str) -> Vec<(&'static str, Str
 
 /// The block of the script that belongs to one subcommand level (elvish, powershell, nushell
 /// have one literal block per level, keyed by the path of names).
+/// zsh: the `_arguments` block of the level addressed by `path`, found by walking the nested
+/// `case $state in` / `case $line[N] in` structure arm by arm (never by searching for the name alone).
+fn zsh_level_block<'a>(script: &'a str, path: &[String]) -> Option<&'a str> {
+    const HEAD: &str = "_arguments \"${_arguments_options[@]}\" : \\\n";
+    const TAIL: &str = "\n&& ret=0";
+    let start = script.find(HEAD)? + HEAD.len() - 1;
+    let mut block = (start, start + script[start..].find(TAIL)?);
+    for name in &path[1..] {
+        // scan the lines after the current block: the arms of this level sit at case-depth 2
+        let mut depth = 0i32;
+        let mut pos = block.1 + TAIL.len();
+        let mut found = None;
+        let arm = format!("({name})");
+        while pos < script.len() {
+            let eol = script[pos..].find('\n').map(|i| pos + i).unwrap_or(script.len());
+            let line = script[pos..eol].trim();
+            if line.starts_with("case ") && line.ends_with(" in") {
+                depth += 1;
+            } else if line == "esac" {
+                depth -= 1;
+                if depth <= 0 {
+                    break;
+                }
+            } else if depth == 2 && line == arm && script[(eol + 1).min(script.len())..].starts_with(HEAD) {
+                let st = eol + 1 + HEAD.len() - 1;
+                found = Some((st, st + script[st..].find(TAIL)?));
+                break;
+            }
+            pos = eol + 1;
+        }
+        block = found?;
+    }
+    Some(&script[block.0..block.1])
+}
+
+/// zsh: the `commands=( .. )` array of the `_<path>_commands` function of a level.
+fn zsh_commands_array<'a>(script: &'a str, path: &[String]) -> Option<&'a str> {
+    let open = format!("\n_{}_commands() {{\n    local commands; commands=(", path.join("__"));
+    let start = script.find(&open)? + open.len();
+    let end = start + script[start..].find("\n    _describe -t commands")?;
+    Some(&script[start..end])
+}
+
 fn level_block<'a>(g: Gen, script: &'a str, path: &[String]) -> Option<&'a str> {
+    if g == Gen::Zsh {
+        return zsh_level_block(script, path);
+    }
     let (open, close): (String, &str) = match g {
         Gen::Elvish => (format!("&'{}'= {{", path.join(";")), "\n        }"),
         Gen::PowerShell => (format!("'{}' {{", path.join(";")), "break"),
@@ -393,6 +439,10 @@ fn level_block<'a>(g: Gen, script: &'a str, path: &[String]) -> Option<&'a str> 
     let start = script.find(&open)? + open.len();
     let end = script[start..].find(close).map(|i| start + i).unwrap_or(script.len());
     Some(&script[start..end])
+}
+
+fn zsh_escape_name(n: &str) -> String {
+    n.replace('\\', "\\\\").replace('\'', "'\\''").replace('[', "\\[").replace(']', "\\]").replace(':', "\\:").replace('$', "\\$").replace('`', "\\`")
 }
 
 /// Level-scoped coverage: what belongs to a level is in that level's block, and no option of
@@ -427,7 +477,7 @@ fn level_scoped_checks(g: Gen, spec: &CmdSpec, script: &str) -> Vec<(&'static st
         bad.dedup_by(|a, b| a.0 == b.0 && a.1 == b.1);
         return bad;
     }
-    if !matches!(g, Gen::Elvish | Gen::PowerShell | Gen::Nushell) {
+    if !matches!(g, Gen::Elvish | Gen::PowerShell | Gen::Nushell | Gen::Zsh) {
         return bad;
     }
     // all (owner level name, long spelling) pairs of the tree
@@ -456,8 +506,23 @@ fn level_scoped_checks(g: Gen, spec: &CmdSpec, script: &str) -> Vec<(&'static st
                         }
                     }
                 }
+                if g == Gen::Zsh && c.subs.iter().any(|x| !x.has(CmdSetting::Hide)) {
+                    // zsh names the subcommands of a level in that level's `_.._commands` function
+                    match zsh_commands_array(script, path) {
+                        None => bad.push(("coverage-missing", "zsh/commands-function".to_string(), format!("no `_{}_commands` function in the zsh script", path.join("__")))),
+                        Some(arr) => {
+                            for sub in c.subs.iter().filter(|x| !x.has(CmdSetting::Hide)) {
+                                for n in std::iter::once(&sub.name).chain(sub.visible_aliases.iter()) {
+                                    if !arr.contains(&format!("'{}:", zsh_escape_name(n))) {
+                                        bad.push(("coverage-missing", "zsh/subcommand-at-level".to_string(), format!("subcommand name `{n}` is not an entry of `_{}_commands`", path.join("__"))));
+                                    }
+                                }
+                            }
+                        }
+                    }
+                }
                 for sub in c.subs.iter().filter(|x| !x.has(CmdSetting::Hide)) {
-                    if g != Gen::Nushell && !contains_token(block, &sub.name) {
+                    if g != Gen::Nushell && g != Gen::Zsh && !contains_token(block, &sub.name) {
                         bad.push(("coverage-missing", format!("{}/subcommand-at-level", g.name()), format!("subcommand `{}` is not mentioned in the block of level `{}` of the {} script", sub.name, path.join(" "), g.name())));
                     }
                 }
@@ -889,6 +954,40 @@ fn exec_sink(which: Which, sc: &SinkSc, log: &mut Log, out: &mut Outcome) {
             GenOut::Panic(p, _) => {
                 out.violate("nondeterministic-output", format!("{}/{name}", g.name()), format!("panic for a {name} command where a fresh one succeeds: {} at {}", p.msg, p.loc));
                 return;
+            }
+        }
+    }
+
+    // ---- man page of a root whose last subcommand was added after the rest of the tree had been built:
+    // the page differs legitimately from the fresh one (the auto-generated `help` subcommand is placed
+    // differently), so only the run-time clauses are asserted: it renders, and names every visible item
+    if g == Gen::Man && man_names.is_empty() && !sc.spec.subs.is_empty() {
+        let mut early = sc.spec.clone();
+        let late = early.subs.pop().unwrap();
+        let mut c = build_cmd(&early);
+        if catch(|| c.build()).is_ok() {
+            let mut c = c.subcommand(build_cmd(&late));
+            let (r, _, _, _) = generate_with(g, &mut c, &bin, &man_names, &perfect);
+            out.steps += 1;
+            out.comparisons += 1;
+            out.count("op.man_after_late_subcommand");
+            shape.add_str("late-subcommand");
+            match r {
+                GenOut::Ok(b) => {
+                    let t = String::from_utf8_lossy(&b).to_string();
+                    if let Some((clause, site, d)) = man_checks(level, &[], &t) {
+                        out.violate(clause, format!("late-subcommand/{site}"), format!("man page of `{}` whose last subcommand was added after build(): {d}\n{}", level.name, crate::cmdsim::safe_slice(&t, 0, 1500)));
+                        return;
+                    }
+                }
+                GenOut::Err(e, _) => {
+                    out.violate("generator-error-on-perfect-sink", "man/late-subcommand", format!("error {e} for a command whose last subcommand was added after build()"));
+                    return;
+                }
+                GenOut::Panic(p, _) => {
+                    out.violate("generate-panic", "man/late-subcommand", format!("Man::render panicked for a command whose last subcommand was added after build(): {} at {}", p.msg, p.loc));
+                    return;
+                }
             }
         }
     }
